@@ -12,7 +12,7 @@ rsync -a --exclude .git /repo/ "$D/"
 mkdir -p "$D/.verif"; cp "$V/known_findings.txt" "$D/.verif/"; cp -r "$V/testdata" "$D/.verif/"
 pids=()
 for p in ${props//,/ }; do
-  ( "$V/bin/vcheck" -p $p -repo "$D" -verif "$D/.verif" > "$D/.out.$p" 2>&1; echo $? > "$D/.rc.$p" ) &
+  ( "${VCHECK:-$V/bin/vcheck}" -p $p -repo "$D" -verif "$D/.verif" > "$D/.out.$p" 2>&1; echo $? > "$D/.rc.$p" ) &
   pids+=($!)
   # at most 6 in parallel (memory)
   if [ ${#pids[@]} -ge 6 ]; then wait ${pids[0]}; pids=("${pids[@]:1}"); fi
